@@ -15,6 +15,7 @@ sc3.init(os.environ.get('SC3_MODE', 'nrt'))
 from sc3.base.stream import stream, StopStream
 import sc3.base.builtins as bi
 from sc3.seq import pattern as ptt
+from sc3.base import absobject as aob
 from sc3.seq.patterns.listpatterns import (Pseq, Pser, Pswitch, Pswitch1, Ptuple, Place, Pslide,
                                             Prand, Pxrand)
 from sc3.seq.patterns.filterpatterns import (Pn, Plen, Pdrop, Pstutter, Pclump, Pflatten, Pdiff,
@@ -129,7 +130,8 @@ def build(e):
     if k == 'Pnarop':
         a, b, c = B(e[2]), B(e[3]), B(e[4])
         if isinstance(a, ptt.Pattern):
-            return getattr(a, e[1])(b, c)     # p.clip(lo, hi) / wrap / fold
+            # p.clip(lo, hi) / wrap / fold -- called on the class: a Pslide INSTANCE has a bool attribute 'wrap'
+            return getattr(aob.AbstractObject, e[1])(a, b, c)
         return ptt.Pnarop(getattr(bi, e[1]), a, b, c)
     if k == 'Pif':
         return Pif(B(e[1]), B(e[2]), B(e[3]))
@@ -194,7 +196,7 @@ def take(nextf, n):
     except StopIteration:          # StopStream is a StopIteration
         return [vals, 'stop']
     except Timeout:
-        return [vals, 'timeout']
+        raise                      # abort the whole case (the timer is one-shot)
     except RecursionError:
         return [vals, 'err:RecursionError']
     except Exception as e:
@@ -204,7 +206,7 @@ def take(nextf, n):
 def run_case(c):
     res = {'iter': None, 'next': None, 'all': None, 'two': None, 'mutated': False, 'again': None}
     n = c['n']
-    signal.setitimer(signal.ITIMER_REAL, c.get('timeout', 3.0))
+    signal.setitimer(signal.ITIMER_REAL, c.get('timeout', 2.0))
     try:
         try:
             p = build(c['expr'])
@@ -238,10 +240,11 @@ def run_case(c):
         if c.get('finite'):
             s2 = stream(p)
             try:
-                signal.setitimer(signal.ITIMER_REAL, 2.0)
+                signal.setitimer(signal.ITIMER_REAL, 1.0)
                 res['all'] = [ev(x) for x in s2.all()]
             except Timeout:
                 res['all'] = None
+                res['all_timeout'] = True
             except Exception as e:
                 res['all'] = 'err:' + type(e).__name__
     except Timeout:
@@ -256,9 +259,16 @@ def main():
     signal.signal(signal.SIGALRM, _alarm)
     sys.setrecursionlimit(5000)
     out = []
+    timeouts = 0
     for c in cases:
+        if timeouts >= 8:        # the tree under test hangs: do not spend the whole budget on it
+            out.append({'skipped': True})
+            continue
         try:
-            out.append(run_case(c))
+            r = run_case(c)
+            if r.get('timeout') or (r.get('iter') and r['iter'][1] == 'timeout') or r.get('all_timeout'):
+                timeouts += 1
+            out.append(r)
         except Exception as e:
             out.append({'harness_error': type(e).__name__ + ': ' + str(e)[:200]})
     json.dump({'out': out}, open(sys.argv[2], 'w'))
